@@ -121,4 +121,124 @@ def toTree (m : Msg) : Node :=
 
 def write (m : Msg) : Bytes := writeDoc (toTree m)
 
+/-! ### reading a tree back (reference reader for the documents written above) -/
+
+def readAs (v : Bytes) : Option (List Blk) := ResText.parseAs v
+def readIp (v4 : Bool) (v : Bytes) : Option (List Blk) :=
+  (ResText.parseIpItems v4 v).bind fun items =>
+    let bs := items.map ResText.tblkBounds
+    if bs.all (fun b => b.lo ≤ b.hi) then some (fromIter (2 ^ 128 - 1) bs) else none
+
+def two (a b : Nat) : Option Nat :=
+  if 48 ≤ a ∧ a ≤ 57 ∧ 48 ≤ b ∧ b ≤ 57 then some ((a - 48) * 10 + (b - 48)) else none
+
+/-- `YYYY-MM-DDTHH:MM:SSZ` -/
+def readTime : Bytes → Option X509.Civil
+  | [y1, y2, y3, y4, 45, m1, m2, 45, d1, d2, 84, h1, h2, 58, i1, i2, 58, s1, s2, 90] =>
+    match two y1 y2, two y3 y4, two m1 m2, two d1 d2, two h1 h2, two i1 i2, two s1 s2 with
+    | some ya, some yb, some m, some d, some h, some mi, some s => some ⟨ya * 100 + yb, m, d, h, mi, s⟩
+    | _, _, _, _, _, _, _ => none
+  | _ => none
+
+/-- unpadded URL-safe Base64 back to octets -/
+def unB64Url (v : Bytes) : Option Bytes :=
+  let std := v.map fun c => if c = 45 then 43 else if c = 95 then 47 else c
+  let pad := match std.length % 4 with | 2 => [61, 61] | 3 => [61] | _ => []
+  b64Decode (std ++ pad)
+
+def readB64 : Option Nodes → Option Bytes
+  | some .nil => some []
+  | some (.cons (.text t) .nil) => xmlB64Decode t
+  | _ => none
+
+def optRead (name : String) (f : Bytes → Option (List Blk)) (attrs : List (Bytes × Bytes)) : Option (Option (List Blk)) :=
+  match lookup (s name) attrs with
+  | none => some none
+  | some v => (f v).map some
+
+def readLimit (attrs : List (Bytes × Bytes)) : Option Limit :=
+  match optRead "req_resource_set_as" readAs attrs, optRead "req_resource_set_ipv4" (readIp true) attrs,
+        optRead "req_resource_set_ipv6" (readIp false) attrs with
+  | some a, some b, some c => some ⟨a, b, c⟩
+  | _, _, _ => none
+
+def attrText (name : String) (attrs : List (Bytes × Bytes)) : Option Bytes := (lookup (s name) attrs).bind unescapeAll
+
+def readIssued : Node → Option Issued
+  | .elem name attrs body =>
+    if name ≠ s "certificate" then none else
+    match attrText "cert_url" attrs, readLimit attrs, readB64 body with
+    | some u, some l, some c => some ⟨u, l, c⟩
+    | _, _, _ => none
+  | .text _ => none
+
+/-- the children of `<class>`: `certificate*` then one `issuer` -/
+def readClassKids : List Node → Option (List Issued × Bytes)
+  | [] => none
+  | [.elem name [] body] => if name = s "issuer" then (readB64 body).map fun c => ([], c) else none
+  | k :: rest =>
+    match readIssued k, readClassKids rest with
+    | some i, some (is, c) => some (i :: is, c)
+    | _, _ => none
+
+def readClass : Node → Option Class
+  | .elem name attrs (some kids) =>
+    if name ≠ s "class" then none else
+    match attrText "class_name" attrs, attrText "cert_url" attrs,
+          (lookup (s "resource_set_as") attrs).bind readAs, (lookup (s "resource_set_ipv4") attrs).bind (readIp true),
+          (lookup (s "resource_set_ipv6") attrs).bind (readIp false), (lookup (s "resource_set_notafter") attrs).bind readTime,
+          readClassKids kids.toList with
+    | some n, some u, some a, some v4, some v6, some t, some (is, c) => some ⟨n, u, ⟨a, v4, v6⟩, t, is, c⟩
+    | _, _, _, _, _, _, _ => none
+  | _ => none
+
+def readKey : Node → Option (Bytes × Bytes)
+  | .elem name attrs none =>
+    if name ≠ s "key" then none else
+    match attrText "class_name" attrs, (lookup (s "ski") attrs).bind unB64Url with
+    | some n, some k => some (n, k)
+    | _, _ => none
+  | _ => none
+
+def readDecimal (t : Bytes) : Option Nat :=
+  if t = [] ∨ !t.all ResText.isDigit then none else some (t.foldl (fun acc c => acc * 10 + (c - 48)) 0)
+
+def readPayload (ty : Bytes) (ks : List Node) : Option Payload :=
+  if ty = s "list" then (if ks = [] then some .list else none)
+  else if ty = s "list_response" then (ks.mapM readClass).map .listResponse
+  else if ty = s "issue" then
+    (match ks with
+     | [.elem name attrs body] =>
+       if name ≠ s "request" then none else
+       (match attrText "class_name" attrs, readLimit attrs, readB64 body with
+        | some n, some l, some c => some (.issue n l c)
+        | _, _, _ => none)
+     | _ => none)
+  else if ty = s "issue_response" then
+    (match ks with
+     | [k] => (readClass k).bind fun c => if c.issued.length = 1 then some (.issueResponse c) else none
+     | _ => none)
+  else if ty = s "revoke" then
+    (match ks with | [k] => (readKey k).map fun (n, sk) => .revoke n sk | _ => none)
+  else if ty = s "revoke_response" then
+    (match ks with | [k] => (readKey k).map fun (n, sk) => .revokeResponse n sk | _ => none)
+  else if ty = s "error_response" then
+    (match ks with
+     | [.elem n1 [] (some (.cons (.text st) .nil))] =>
+       if n1 = s "status" then (readDecimal st).map fun v => .error v none else none
+     | [.elem n1 [] (some (.cons (.text st) .nil)), .elem n2 [] (some (.cons (.text d) .nil))] =>
+       if n1 = s "status" ∧ n2 = s "description" then (readDecimal st).map fun v => .error v (some d) else none
+     | _ => none)
+  else none
+
+def ofTree : Node → Option Msg
+  | .elem name attrs (some kids) =>
+    if name ≠ s "message" ∨ lookup (s "xmlns") attrs ≠ some ns ∨ lookup (s "version") attrs ≠ some version then none else
+    match attrText "sender" attrs, attrText "recipient" attrs, lookup (s "type") attrs with
+    | some sn, some rc, some ty => (readPayload ty kids.toList).map fun p => ⟨sn, rc, p⟩
+    | _, _, _ => none
+  | _ => none
+
+def read (doc : Bytes) : Option Msg := (parseDoc doc).bind ofTree
+
 end Rpki.ProvMsg
